@@ -91,6 +91,21 @@ fn check(id: &str, tier: &str, seed: u64) -> i32 {
             }
         }
     }
+    // findings that are recorded (not repaired): demonstrate each one from its replay file
+    let known = evidence::KnownFindings::load();
+    for k in known.known_for(prop) {
+        match &k.replay {
+            Some(rp) => {
+                let path = evidence::verif_dir().join(rp);
+                match replay_file(&path) {
+                    Ok(Some(_)) => println!("KNOWN-FINDING: property={} {}", prop, k.what),
+                    Ok(None) => eprintln!("note: known finding `{}` no longer reproduces from {}", k.signature, path.display()),
+                    Err(e) => eprintln!("note: replay of known finding `{}` inconclusive: {}", k.signature, e),
+                }
+            }
+            None => println!("KNOWN-FINDING: property={} {}", prop, k.what),
+        }
+    }
     let r = match prop {
         "C03" => c03::run_c03(tier, seed),
         "C07" => c07::run_c07(tier, seed),
